@@ -130,4 +130,28 @@ func (s *Spec) ValidateJumpIf(specs map[string]filters.Spec)
   invariant[2] done-so-far: forall i2 int; r string :: i < i2 && i2 < len(s.Flow) && s.Flow[i2].FilterName != "END" && (r in s.Flow[i2].JumpIf) ==> validTarget(s, i2, s.Flow[i2].JumpIf[r])
   invariant[2] named-so-far: forall i2 int :: i < i2 && i2 < len(s.Flow) && s.Flow[i2].FilterName != "END" ==> (s.Flow[i2].FilterName in specs) && specs[s.Flow[i2].FilterName] != nil
   invariant[2] visited-valid: forall q int :: 0 <= q && q < idx$2 ==> validTarget(s, i, s.Flow[i].JumpIf[keys$2[q]])
+
+// C02: what a pipeline spec must pass before it is accepted. Validate reports every failed check through a panic
+// that its deferred recover() turns into the error (recover is not modelled: a panic ends the path), so the paths
+// that return normally are exactly the accepted specs: on them every filter spec was built, no filter is named END,
+// no two filters share a name (the map handed to the flow check has one entry per filter), the flow check passed
+// and every resilience policy was built.
+ghost var gFlowChecked bool
+ghost var gSpecsLen int
+ghost var gPolicies int
+func (s *Spec) Validate() (err error)
+  flag allocates
+  flag frame=unchecked
+  requires s != nil
+  modifies gFlowChecked, gSpecsLen, gPolicies
+  panics_only_if true
+  ensures accepted-specs-passed-the-flow-check-with-one-entry-per-filter: err == nil && gFlowChecked && gSpecsLen == len(s.Filters)
+  ensures every-resilience-policy-was-built: gPolicies == len(s.Resilience)
+  ghost at entry: gFlowChecked := false
+  ghost at entry: gPolicies := 0
+  ghost at call[1] ValidateJumpIf: gFlowChecked := true
+  ghost at call[1] ValidateJumpIf: gSpecsLen := len(specs)
+  ghost at call[1] NewPolicy: gPolicies := gPolicies + 1
+  invariant[1] specs != nil && fresh(specs) && len(specs) == idx$1 && !("END" in specs) && !gFlowChecked && gPolicies == 0
+  invariant[2] gFlowChecked && gSpecsLen == len(s.Filters) && gPolicies == idx$2
 @*/
